@@ -366,6 +366,39 @@ fn float_stream(cx: &mut Ctx, rng: &mut Rng, tables: u64) {
     }
 }
 
+/// Value-domain stream (floats and i64 extremes are not modelled: direct oracle only).  Every
+/// statement runs with the gate on and forced off; MIN / MAX / COUNT must agree exactly, SUM / AVG
+/// to 1e-9 relative.
+fn num_stream(cx: &mut Ctx, rng: &mut Rng, thorough: bool) {
+    for (n, d_dom, b_dom) in num_plan(rng, thorough) {
+        let c = gen_num_case(rng, n, d_dom, b_dom);
+        let mut db = load_num_case(&c);
+        cx.rep.count(&format!("num_domain_d_{}", d_dom));
+        cx.rep.count(&format!("num_domain_b_{}", b_dom));
+        cx.rep.count(&format!("num_size_{}", n));
+        for st in num_statements(&c) {
+            let sql = st.sql();
+            let (on, off) = both(&mut db, &sql);
+            let sig = if epsilon_class(&c, &st) { Some("C03/filter-epsilon") } else { None };
+            cx.rep.case(&format!("num|{}|{}|{}|{}|{}", n, d_dom, b_dom, c.null_pct, sql), true);
+            cx.rep.count("num_statements(direct oracle only)");
+            if let Some((op, fl)) = st.pred {
+                cx.rep.count(&format!("num_pred_{}_{}_{}", st.col, op.proto(), if fl { "0.0" } else { "0" }));
+            }
+            if !num_outs_agree(&st, &on, &off) {
+                cx.rep.fail(
+                    FailKind::Oracle,
+                    sig,
+                    &format!("columnar gate on and off give different results (value domain stream, column {})", st.col),
+                    &format!("{}{};
+on : {}
+off: {}", num_case_text(&c), sql, on.brief(), off.brief()),
+                );
+            }
+        }
+    }
+}
+
 fn main() {
     engine::silence_panics();
     let args = Args::parse("C03");
@@ -418,6 +451,8 @@ fn main() {
         }
         let mut r = rng.fork();
         float_stream(&mut cx, &mut r, args.n(8, 80));
+        let mut r = rng.fork();
+        num_stream(&mut cx, &mut r, !args.quick());
     }
     columnar(true);
     std::process::exit(rep.finish());
